@@ -232,7 +232,8 @@ Proof.
                 big_fuel xv Hx) as (xk & Hxa & Hxe).
     rewrite Hacc in Hxa. injection Hxa as <-.
     destruct (export_scalar_inv _ _ _ _ Hxe) as (sch & r & ->).
-    rewrite (to_string_scalar big_fuel s0 sch x0 r big_fuel_pos) in H.
+    change (to_string (ts_need (LScalar s0 false sch x0 :: r)) (LScalar s0 false sch x0 :: r)) with (scalar_text x0, false, s0) in H.
+    cbv beta iota in H.
     rewrite (IH _ _ _ _ _ _ (fun t q Hin => Hall t q (or_intror Hin)) H).
     unfold interp_part_secret at 2. cbn [snd]. rewrite Hacc, orb_assoc. reflexivity.
   - rewrite (IH _ _ _ _ _ _ (fun t q Hin => Hall t q (or_intror Hin)) H). reflexivity.
